@@ -271,6 +271,7 @@ func serRun(args []string) error {
 			}
 			w.write(ev)
 			w.flush()
+			exitIfLeaked(w)
 		}
 	}
 	// blocks of 40 documents: each block is serialized in order and then again in the opposite order, so every
